@@ -26,9 +26,10 @@ SUBS = {
 
 TIERS = {
     # runs per sub-campaign, chunk size, wall cap for the run phase (s)
-    'smoke': {'runs': {'light-faultfree': 300, 'light-faulty': 300, 'heavy-faultfree': 48, 'heavy-faulty': 48}, 'chunk': {'light': 50, 'heavy': 12}, 'cap_s': 120, 'det_seeds': 4},
-    'quick': {'runs': {'light-faultfree': 4500, 'light-faulty': 6500, 'heavy-faultfree': 500, 'heavy-faulty': 900}, 'chunk': {'light': 250, 'heavy': 50}, 'cap_s': 150, 'det_seeds': 16},
-    'thorough': {'runs': {'light-faultfree': 120000, 'light-faulty': 180000, 'heavy-faultfree': 14000, 'heavy-faulty': 22000}, 'chunk': {'light': 1000, 'heavy': 100}, 'cap_s': 1500, 'det_seeds': 64},
+    # 'hyp': (chunks, examples per chunk) for the Hypothesis generator, light and heavy
+    'smoke': {'hyp': {'light': (2, 40), 'heavy': (1, 8)}, 'runs': {'light-faultfree': 300, 'light-faulty': 300, 'heavy-faultfree': 48, 'heavy-faulty': 48}, 'chunk': {'light': 50, 'heavy': 12}, 'cap_s': 120, 'det_seeds': 4},
+    'quick': {'hyp': {'light': (8, 150), 'heavy': (4, 20)}, 'runs': {'light-faultfree': 4500, 'light-faulty': 6500, 'heavy-faultfree': 500, 'heavy-faulty': 900}, 'chunk': {'light': 250, 'heavy': 50}, 'cap_s': 150, 'det_seeds': 16},
+    'thorough': {'hyp': {'light': (48, 2000), 'heavy': (32, 150)}, 'runs': {'light-faultfree': 120000, 'light-faulty': 180000, 'heavy-faultfree': 14000, 'heavy-faulty': 22000}, 'chunk': {'light': 1000, 'heavy': 100}, 'cap_s': 1500, 'det_seeds': 64},
 }
 
 
@@ -84,6 +85,11 @@ def run_chunk(args: tuple) -> dict:
         spec = program.generate(seed, prof)
         done.append(i)
         res = runner.run_spec(spec)
+        if res['status'] == 'ok' and not prof.get('faults', True) and res['stmts'] != res['stmts_total']:
+            # fault-free sub-campaigns: every generated statement must execute and be checked
+            # (DESIGN.md 3.5); anything else means the interpreter lost part of a program
+            res['status'] = 'harness'
+            res['harness_error'] = f'fault-free run executed {res["stmts"]} of {res["stmts_total"]} statements'
         fold(agg, spec, res, sub)
         if res['status'] != 'ok':
             spec['decisions'] = res['decisions']
